@@ -16,7 +16,8 @@ import Lattigo.Model.ParamsGen
                                                 (Gen/Params.lean via Model/ParamsGen.lean, float64 semantics
                                                 included), not the hand-written `Lazy.overflowMargin`
     eval <scheme> nth= t= rows= logcols= mode= inplace= ctlvl= ctscale= outlvl= qmodt= v=
-         (LT ratio= lvl= scale= (D <idx> <vals>)*)*
+         (LT ratio= lvl= scale= [skind=] (D <idx> <vals>)*)*
+      bgv: the output scale is printed as <value>%<modulus>
 -/
 namespace Driver.C12
 open Driver
@@ -30,6 +31,7 @@ structure RawLT where
   ratio : Int
   lvl : Nat
   scale : Nat
+  skind : Nat   -- 2: the transformation's scale carries NO modulus (rlwe.NewScale), else the scheme's
   diags : List (Int × List Int)
 
 /-- split the token list at the `LT` markers -/
@@ -56,7 +58,8 @@ def parseLT (toks : List String) : Option RawLT := do
   let lvl ← (kv? toks "lvl") >>= parseNat?
   let scale ← (kv? toks "scale") >>= parseNat?
   let ds ← parseDiags (toks.dropWhile (· != "D"))
-  some { ratio, lvl, scale, diags := ds }
+  let skind := ((kv? toks "skind") >>= parseNat?).getD 0
+  some { ratio, lvl, scale, skind, diags := ds }
 
 def redT (t : Nat) (x : Int) : Int := if t = 0 then x else x % (t : Int)
 
@@ -121,14 +124,18 @@ def evalLine (toks : List String) : Option String := do
     else
       match seqMeta t qmodt ctlvl ctscale (lts.map fun lt => (lt.levelQ, lt.scale)) with
       | none => return head ++ s!"req={showVec req} err"
-      | some (l, sc) => return head ++ s!"req={showVec req} ok out lvl={l} scale={sc} vals={showVals r}"
+      | some (l, sc) => return head ++ s!"req={showVec req} ok out lvl={l} scale={sc}%{t} vals={showVals r}"
   else
     let rs := evalMany O lts vv
     if rs.any isPanic then return head ++ s!"req={showVec req} panic"
-    let outs := (lts.zip rs).map fun (lt, r) =>
+    let outs := ((lts.zip rs).zip (raws.map (·.skind))).map fun ((lt, r), skind) =>
       let ol := if mode == "many" || mode == "new" then lt.levelQ else outlvl
       let m := outMeta t ol ctlvl lt.levelQ ctscale lt.scale
-      s!" out lvl={m.1} scale={m.2} vals={showVals r}"
+      if t = 0 then s!" out lvl={m.1} scale={m.2} vals={showVals r}"
+      else
+        -- value AND modulus of the output scale (`out_scale_spec`: = (outMeta …).2 and t)
+        let sc := outScale ⟨ctscale, t⟩ ⟨lt.scale, if skind = 2 then 0 else t⟩
+        s!" out lvl={m.1} scale={sc.value}%{sc.mod} vals={showVals r}"
     return head ++ s!"req={showVec req} ok" ++ String.join outs
 
 def parsePerm : List String → Option (List (Nat × Int × Int × Nat))
